@@ -33,7 +33,7 @@ FAMILY_VARIANTS = {
 # exit-point rows with action+guard): the families it compiles -- "back11 where it accepts the same declarations"
 B11_FAMS = ["ids_mixed_none", "ids_mixed_always", "ids_mixed_shallow", "conflict_flat", "nest_inactive", "queue_flat", "queue_nested", "defer_basic", "defer_action", "completion_chain",
             "blocking", "flags", "storage", "fork_entry", "history_none", "history_always", "history_shallow", "serial_nested",
-            "fe_player", "fe_conflict", "exit_points_plain", "defer_queue_first", "root_history"]
+            "fe_player", "fe_conflict", "exit_points_plain", "defer_queue_first", "root_history", "defer_sub"]
 
 
 # back with queue_container_circular (capacity 256 set by the adapter, "sufficient" for every plan)
@@ -140,7 +140,7 @@ PROPS = {
                 + rand_jobs("dfb", ["defer", "queue"], 600, 8000, nthorough=12) + rand_jobs("dfm", ["defer", "queue"], 600, 8000, nthorough=12)
                 + rand_jobs("sto", ["defer"], 0, 6000, nthorough=8)
                 + jobs(["kleene_defer"], ["defer", "queue"], 800, 30000)
-                + jobs(["defer_queue_first"], ["defer", "queue"], 800, 30000, variants=ALLV)
+                + jobs(["defer_queue_first", "defer_sub"], ["defer", "queue"], 800, 30000, variants=ALLV)
                 # long-lived machines: hundreds of ops per run (the deferred-queue sequence counter wraps; third seeded defect C05)
                 + jobs(["defer_basic", "defer_queue_first", "defer_action"], ["long"], 60, 3000, variants=["B", "BC", "B11", "M", "MC"])
                 + jobs(["defer_cond"], ["long"], 40, 2000, variants=["M", "MC"]),
@@ -185,6 +185,8 @@ PROPS = {
     },
     "C10": {
         "jobs": jobs(["completion_chain"], ["plain", "posts", "queue"], 1500, 80000, variants=ALLV) + jobs(["blocking_completion", "completion_regions"], ["plain"], 1000, 40000, variants=ALLV)
+                # completion transitions of states entered by explicit entry / fork (third seeded defect C10)
+                + jobs(["fork_entry"], ["plain", "posts"], 800, 30000, variants=ALLV)
                 + rand_jobs("compl", ["plain", "posts", "queue"], 600, 8000),
         "nontrivial": ["completion"],
         "rule": "plans on a machine with completion chains (1-4, conflicts, guards, inside a sub-machine, from the initial state) with "
@@ -201,6 +203,8 @@ PROPS = {
         "jobs": jobs(["order_rows", "nest2_mixed", "conflict_ortho"], ["throws"], 600, 30000)
                 + jobs(["nest3", "completion_chain", "queue_flat", "queue_nested", "defer_basic", "fork_entry", "exit_points", "history_always"],
                        ["throws"], 600, 30000, variants=ALLV)
+                # events pending in the deferred queue of a sub-machine whose exit cascade throws (third seeded defect C12)
+                + jobs(["defer_sub"], ["throws"], 800, 30000, variants=ALLV)
                 # an exception in the entry of a completion source under every switch policy (seeded defect C12, DESIGN.md section 12)
                 + jobs(["completion_chain"], ["throws"], 600, 30000, variants=POLV)
                 # "the outcome does not depend on uninitialised data": the same plans under valgrind (one plan per process)
